@@ -112,3 +112,25 @@ Definition ptcx (r : ratecx) (e t n z b : Q) (i : iout) : bool :=
 (* ---- null rates and the conversion factor ---- *)
 Definition ptnull (i : iout) : bool := match i with IVal v => Qeq_bool v 0 | _ => false end.
 Definition cf_ok (cf : Q) : bool := close rel40 0 cf hc_nm.
+
+(* ---- interior points of BeamCXPEC's linear-space axes against raysect's cubic -------------------
+   energy sits on its axis (the log-space factor is then the stored value, no transcendental function
+   involved); temperature, density, Z-effective and B-field are anywhere inside their ranges and go
+   through Model/C07_Cubic.v: cubic1_r (= cubic1, Proofs/C07_Cubic.v cubic1_r_eq) in exact rational arithmetic, including the "rate <= 0 -> 0" exits *)
+Require Import Cherab.Model.C07_Cubic.
+Definition modelcx_cubic (r : ratecx) (e t n z b : Q) : outcome :=
+  evalcx Q xlg xex xinterp1 cubic1_r (conv true (rc_cf r) (rc_wl r)) (rc_ext r)
+         (rc_ebs r) (rc_tis r) (rc_nis r) (rc_zs r) (rc_bs r)
+         (rc_qeb r) (rc_qti r) (rc_qni r) (rc_qz r) (rc_qb r) (rc_qref r) e t n z b.
+Definition inside_free (xs : list Q) (x : Q) : bool := single xs || inrange xs x.
+Definition ptcx_cubic (r : ratecx) (e t n z b : Q) (i : iout) : bool :=
+  on_free_axis (rc_ebs r) e && inside_free (rc_tis r) t && inside_free (rc_nis r) n
+  && inside_free (rc_zs r) z && inside_free (rc_bs r) b && posb t && posb n &&
+  match modelcx_cubic r e t n z b, i with
+  | Val q, IVal v => close tol 0 q v
+  | _, _ => false
+  end.
+
+(* a null rate: the model's evalnull_at against what came back, at any arguments *)
+Definition ptnull_at (args : list Q) (i : iout) : bool :=
+  match evalnull_at args, i with Val q, IVal v => Qeq_bool v q | _, _ => false end.
